@@ -18,7 +18,7 @@ import ast
 
 import astq
 import cfg as cfgmod
-from model import walk_own, norm, AnalysisError, FuncInfo
+from model import walk_own, AnalysisError, FuncInfo, full as norm
 
 EXPLANATION = (
     'Static analysis (ast + per-function CFG + resolved closures) of DaskGeoDataFrame.pack_partitions_to_parquet: '
